@@ -1,4 +1,6 @@
 import Martian.Lemmas.Grpc
+import Martian.Props.C11.Bounds
+import Martian.Props.C11.EmptyFrames
 /-!
 # C11 — gRPC reframing is invariant to DATA fragmentation and compression
 
